@@ -199,7 +199,7 @@ theorem C01_powZ_exact (a : Int) (n : Nat) : powZ a n = a ^ n := powZ_eq a n
 
 /-- `i64::checked_pow`: whenever it answers, the answer is `a ^ n` and lies inside i64. -/
 theorem C01_checkedPow_exact (a : Int) (n : Nat) (r : Int) (h : checkedPow a n = some r) :
-    r = a ^ n := checkedPow_val a n r h
+    r = a ^ n ∧ inI64 r = true := ⟨checkedPow_val a n r h, checkedPow_inI64 a n r h⟩
 
 /-- `binary_pow` (square-and-multiply, sign of the exponent ignored) is `n ^ |p|`; the fuel
 `log2 |p| + 1` of the model is sufficient. -/
@@ -233,7 +233,7 @@ theorem C01_eval_exact (e : Expr) (h : InDomain e) : (eval e).map Num.val = eval
 theorem C01_inDomain_of_no_shift (op : BinOp) (l r : Expr) (hl : InDomain l) (hr : InDomain r)
     (h1 : op ≠ .shl) (h2 : op ≠ .shr) : InDomain (.bin op l r) := by
   refine ⟨hl, hr, fun a b _ _ => ?_⟩
-  cases op <;> first | trivial | exact absurd rfl h1 | exact absurd rfl h2
+  cases op <;> trivial   -- `trivial` also closes the `.shl ≠ .shl` / `.shr ≠ .shr` cases
 
 /-- … and for shifts whose count is a literal within `usize`. -/
 theorem C01_inDomain_of_small_count (l : Expr) (c : Int) (hl : InDomain l)
